@@ -32,6 +32,15 @@
     C02_fragment_spelled_ns   the same relation between parse_fragment(t) and parse(<w>t</w>) with namespaces
     C02_positions_irrelevant  byte positions and whole-token spans of the tokens do not influence the
                           tree, the interning tables or the id map a parse returns, nor whether it fails
+    C02_lexical_layout / _fragment / _document / _prolog / _declaration / _bom   ON STRINGS, through the
+                          reference tokenizer (Model/Lex*.lean, tied to xmlparser by the `lex` suite): for
+                          every well-formed spelling and EVERY layout of its tokens — either quote per
+                          attribute, any white space (blank, TAB, LF, CR) before attributes, around `=`,
+                          before `>` / `/>`, in end tags, in PIs, between and after the top-level items,
+                          XML declaration (any layout, version 1.0) or not, BOM or not — `parse` /
+                          `parse_fragment` of the TEXT returns exactly the denoted document
+    C02_lexical_line_ends line ends inside tags are white space; C02_comment_line_ends_kept: in comments
+                          and PIs they are kept verbatim (XML 1.0 2.11 asks for LF: reported finding)
   Closed examples (token lists of the real tokenizer, replayed on the implementation by the
   `build` suite) accompany each of them.
 -/
@@ -43,6 +52,8 @@ import XotModel.Lemmas.ParseScope
 import XotModel.Lemmas.ParseNsTop
 import XotModel.Lemmas.ParseNsCheck
 import XotModel.Lemmas.ParseErase
+import XotModel.Lemmas.LexFreeBuild
+import XotModel.Lemmas.LexFreeExample
 
 namespace XotModel.Props
 open XotModel XotModel.Witness
@@ -510,5 +521,186 @@ theorem C02_positions_irrelevant_ok (mode : Mode) (len len' : Nat) (env : Env) (
     (h : ts.map Token.erase = ts'.map Token.erase) (p : Parsed) (hp : build mode len env ts none = .ok p) :
     ∃ p', build mode len' env ts' none = .ok p' ∧ p'.tree = p.tree ∧ p'.env = p.env ∧ p'.ids = p.ids :=
   build_erase_ok mode len len' env ts ts' h p hp
+
+/-! ### The lexical layer: quotes, in-tag white space, XML declaration, BOM
+
+`LToken` (Lemmas/LexFreeDefs.lean) = a token plus the layout freedom XML leaves when writing it
+(`lead`: white space before an attribute name / before `>` `/>` / between top-level items of a
+document; `ws1`, `ws2`: around `=`, inside an end tag, inside a PI; `single`: the quote);
+`renderL` writes a list of them; `LexOKL` = the tokenizer's side conditions with the value
+condition for the quote actually used.  `LDoc` adds BOM, XML declaration (`LDecl`, own layout) and
+trailing white space.  The statements below are about `parseString` = the reference tokenizer
+(xmlparser 0.13.6 as written, correspondence suite `lex`) feeding the builder, as `Xot::_parse`
+wires them. -/
+
+/-- C02_lexical_layout: the tokenizer reads every layout of a token list back as that token list
+    (up to byte positions), in both modes, without error. -/
+theorem C02_lexical_layout (m : Mode) (lts : List LToken) (h : LexOKL m.isFragment lts = true) :
+    (lexMode m (renderL lts)).1.map Token.erase = (lts.map LToken.token).map Token.erase ∧
+      (lexMode m (renderL lts)).2 = none :=
+  lexMode_layout m lts h
+
+/-- The canonical spelling (`renderTokens`: one blank, double quotes) is one of the layouts. -/
+theorem C02_lexical_canonical (ts : List Token) : renderL (ts.map LToken.canonical) = renderTokens ts :=
+  renderL_canonical ts
+
+/-- C02_lexical_fragment: `parse_fragment` of the TEXT of any layout of any well-formed spelling
+    returns exactly the denoted nodes. -/
+theorem C02_lexical_fragment {env : Env} (h : EnvBaseNs env) (sns : List NSNode) (hw : WellNsDoc sns)
+    (lts : List LToken)
+    (hl : lts.map (Token.erase ∘ LToken.token) = (NSNode.tokens.tokensList sns).map Token.erase)
+    (hok : LexOKL true lts = true) :
+    ∃ p, parseString .fragment env (renderL lts) = .ok p ∧
+      decodeNs p.env p.tree.kids = some (NSNode.denote.denoteList baseScope sns) := by
+  obtain ⟨p0, hb, _, hd⟩ := C02_spelled_ns_fragment h 0 sns hw
+  have hlex := lexMode_layout .fragment lts hok
+  rw [show (lts.map LToken.token).map Token.erase = (NSNode.tokens.tokensList sns).map Token.erase from by
+    rw [← hl, List.map_map]] at hlex
+  obtain ⟨p, hp, ht, he, _⟩ := parseString_of_lex .fragment env _ _ 0 p0 hlex hb
+  exact ⟨p, hp, by rw [ht, he, hd]⟩
+
+/-- C02_lexical_prolog: `parse` of the TEXT of a whole document — BOM or not, XML declaration of
+    version 1.0 in any layout or not, any layout of the tokens of a well-formed spelling, white
+    space between the top-level items and at the end — returns exactly the denoted document. -/
+theorem C02_lexical_prolog {env : Env} (h : EnvBaseNs env) (sns : List NSNode) (hw : WellNsDoc sns)
+    (htop : AbstractTopNs (NSNode.denote.denoteList baseScope sns)) (d : LDoc)
+    (hl : d.items.map (Token.erase ∘ LToken.token) = (NSNode.tokens.tokensList sns).map Token.erase)
+    (hok : d.ok = true) (hver : ∀ x, d.decl = some x → x.minor = ['0']) :
+    ∃ p, parseString .document env d.render = .ok p ∧
+      decodeNs p.env p.tree.kids = some (NSNode.denote.denoteList baseScope sns) := by
+  obtain ⟨p0, hb, _, hd⟩ := C02_spelled_ns_document h 0 sns hw htop
+  obtain ⟨ts', e, he⟩ := lexDocument_layout_doc d hok
+  have hitems : (d.items.map LToken.token).map Token.erase =
+      (NSNode.tokens.tokensList sns).map Token.erase := by rw [← hl, List.map_map]
+  have hlex : ∀ ts : List Token, d.tokens.map Token.erase = ts.map Token.erase →
+      (lexMode .document d.render).1.map Token.erase = ts.map Token.erase ∧
+        (lexMode .document d.render).2 = none := by
+    intro ts hts
+    rw [show lexMode .document d.render = (ts', none) from e]
+    exact ⟨he.trans hts, rfl⟩
+  cases hdec : d.decl with
+  | none =>
+    obtain ⟨p, hp, ht, hev, _⟩ := parseString_of_lex .document env _ _ 0 p0
+      (hlex _ (by simp [LDoc.tokens, hdec, hitems])) hb
+    exact ⟨p, hp, by rw [ht, hev, hd]⟩
+  | some x =>
+    have hb' : build .document 0 env (x.token :: NSNode.tokens.tokensList sns) none = .ok p0 := by
+      rw [LDecl.token, build_declaration _ _ _ _ _ _ _ _ _ (by rw [hver x hdec]), hb]
+    obtain ⟨p, hp, ht, hev, _⟩ := parseString_of_lex .document env _ _ 0 p0
+      (hlex _ (by simp [LDoc.tokens, hdec, hitems])) hb'
+    exact ⟨p, hp, by rw [ht, hev, hd]⟩
+
+/-- C02_lexical_document: `parse` of the text of any layout of a well-formed spelling (no BOM, no
+    declaration). -/
+theorem C02_lexical_document {env : Env} (h : EnvBaseNs env) (sns : List NSNode) (hw : WellNsDoc sns)
+    (htop : AbstractTopNs (NSNode.denote.denoteList baseScope sns)) (lts : List LToken)
+    (hl : lts.map (Token.erase ∘ LToken.token) = (NSNode.tokens.tokensList sns).map Token.erase)
+    (hok : LexOKL false lts = true) :
+    ∃ p, parseString .document env (renderL lts) = .ok p ∧
+      decodeNs p.env p.tree.kids = some (NSNode.denote.denoteList baseScope sns) := by
+  have := C02_lexical_prolog h sns hw htop { items := lts } hl (by simp [LDoc.ok, hok, trailOK, isWs])
+    (fun x hx => by simp at hx)
+  simpa [LDoc.render, LDoc.declText] using this
+
+/-- C02_lexical_declaration: an XML declaration of version 1.0 — any quotes, any white space, with or
+    without `encoding` and `standalone` — in front of the document: the same document. -/
+theorem C02_lexical_declaration {env : Env} (h : EnvBaseNs env) (sns : List NSNode) (hw : WellNsDoc sns)
+    (htop : AbstractTopNs (NSNode.denote.denoteList baseScope sns)) (lts : List LToken)
+    (hl : lts.map (Token.erase ∘ LToken.token) = (NSNode.tokens.tokensList sns).map Token.erase)
+    (hok : LexOKL false lts = true) (x : LDecl) (hx : x.ok = true) (hv : x.minor = ['0']) :
+    ∃ p, parseString .document env (x.render ++ renderL lts) = .ok p ∧
+      decodeNs p.env p.tree.kids = some (NSNode.denote.denoteList baseScope sns) := by
+  have := C02_lexical_prolog h sns hw htop { decl := some x, items := lts } hl
+    (by simp [LDoc.ok, hok, hx, trailOK, isWs]) (fun y hy => by simp at hy; rw [← hy]; exact hv)
+  simpa [LDoc.render, LDoc.declText] using this
+
+/-- C02_lexical_bom: U+FEFF in front of the document (with or without a declaration after it): the
+    same document.  `Tokenizer::from` skips it, and `Xot::parse` hands the text to it as it is.
+    (`parse_fragment` uses `Tokenizer::from_fragment`, which does NOT: see the example below.) -/
+theorem C02_lexical_bom {env : Env} (h : EnvBaseNs env) (sns : List NSNode) (hw : WellNsDoc sns)
+    (htop : AbstractTopNs (NSNode.denote.denoteList baseScope sns)) (lts : List LToken)
+    (hl : lts.map (Token.erase ∘ LToken.token) = (NSNode.tokens.tokensList sns).map Token.erase)
+    (hok : LexOKL false lts = true) (x : Option LDecl) (hx : ∀ y, x = some y → y.ok = true ∧ y.minor = ['0']) :
+    ∃ p, parseString .document env ('\uFEFF' :: ((match x with | some y => y.render | none => []) ++ renderL lts)) =
+        .ok p ∧
+      decodeNs p.env p.tree.kids = some (NSNode.denote.denoteList baseScope sns) := by
+  cases x with
+  | none =>
+    have := C02_lexical_prolog h sns hw htop { bom := true, items := lts } hl
+      (by simp [LDoc.ok, hok, trailOK, isWs]) (fun y hy => by simp at hy)
+    simpa [LDoc.render, LDoc.declText] using this
+  | some y =>
+    have := C02_lexical_prolog h sns hw htop { bom := true, decl := some y, items := lts } hl
+      (by simp [LDoc.ok, hok, (hx y rfl).1, trailOK, isWs])
+      (fun z hz => by simp at hz; rw [← hz]; exact (hx y rfl).2)
+    simpa [LDoc.render, LDoc.declText] using this
+
+/-- C02_lexical_line_ends: inside tags LF, CR and CR LF are white space like blank and TAB (the
+    tokenizer does not normalise anything: `LexOKL` admits every string over these four characters
+    at every layout position); in character data and attribute values line ends are
+    `parse_content`'s (`C02_content`), in CDATA sections `C02_cdata_line_ends`. -/
+theorem C02_lexical_line_ends (w : Str) (h : ∀ c ∈ w, c = ' ' ∨ c = '\t' ∨ c = '\n' ∨ c = '\r') :
+    isWs w = true := by
+  simp only [isWs, List.all_eq_true]
+  intro c hc
+  rcases h c hc with rfl | rfl | rfl | rfl <;> decide
+
+/-- In comments and processing instructions line ends are kept as written: the builder stores the
+    token's text.  (XML 1.0 section 2.11 normalises them to LF everywhere; a comment spelled with
+    CR LF therefore does NOT parse to the comment with LF.  Reported as a finding; the `build`
+    suite's renderer writes no CR into comments and PIs.) -/
+theorem C02_comment_line_ends_kept (b : Builder) (t sp : StrSpan) (target : StrSpan) (c : Option StrSpan) :
+    b.step (.comment t sp) = .ok (b.comment t) ∧
+      b.step (.pi target c sp) = .ok (b.processingInstruction target c) :=
+  ⟨rfl, rfl⟩
+
+/-- `<!--x CR LF y-->` as a fragment: the comment node holds `x CR LF y`. -/
+example : (build .fragment 12 Env.fresh
+    [.comment ⟨['x', '\r', '\n', 'y'], 4⟩ ⟨['<', '!', '-', '-', 'x', '\r', '\n', 'y', '-', '-', '>'], 0⟩] none).flat =
+    some [(0, .document), (1, .comment ['x', '\r', '\n', 'y'])] := by
+  rw [build_eq_buildE]; decide +kernel
+
+/-- Non-vacuity (Lemmas/LexFreeExample.lean).  The text
+    `U+FEFF<?xml version = '1.0' encoding="UTF-8" ?>LF<!--c-->LF<p:a LF TAB xmlns:p='u' k = CR LF "v&amp;" TAB><b LF/>t</p:a LF>LF`
+    is a layout of the spelling `<!--c--><p:a xmlns:p="u" k="v&amp;"><b/>t</p:a>`. -/
+example : exDoc.render =
+    ['\uFEFF', '<', '?', 'x', 'm', 'l', ' ', 'v', 'e', 'r', 's', 'i', 'o', 'n', ' ', '=', ' ', '\'', '1', '.', '0', '\'',
+     ' ', 'e', 'n', 'c', 'o', 'd', 'i', 'n', 'g', '=', '"', 'U', 'T', 'F', '-', '8', '"', ' ', '?', '>', '\n',
+     '<', '!', '-', '-', 'c', '-', '-', '>', '\n',
+     '<', 'p', ':', 'a', '\n', '\t', 'x', 'm', 'l', 'n', 's', ':', 'p', '=', '\'', 'u', '\'',
+     ' ', 'k', ' ', '=', '\r', '\n', '"', 'v', '&', 'a', 'm', 'p', ';', '"', '\t', '>',
+     '<', 'b', '\n', '/', '>', 't', '<', '/', 'p', ':', 'a', '\n', '>', '\n'] := by decide
+
+example : exDoc.ok = true := by decide
+example : exDoc.items.map (Token.erase ∘ LToken.token) = (NSNode.tokens.tokensList exSns).map Token.erase := by decide
+example : WellNsDoc exSns := wellNsDocB_sound _ (by decide)
+example : NSNode.denote.denoteList baseScope exSns =
+    [.comment ['c'],
+     .elem ['u'] ['a'] [(['p'], ['u'])] [(([], ['k']), ['v', '&'])] [.elem [] ['b'] [] [] [], .text ['t']]] := by
+  rfl
+
+/-- … hence `parse` of that text returns that document (from a fresh `Xot`). -/
+example : ∃ p, parseString .document Env.fresh exDoc.render = .ok p ∧
+    decodeNs p.env p.tree.kids = some
+      [.comment ['c'],
+       .elem ['u'] ['a'] [(['p'], ['u'])] [(([], ['k']), ['v', '&'])] [.elem [] ['b'] [] [] [], .text ['t']]] :=
+  C02_lexical_prolog C02_envBaseNs_fresh exSns (wellNsDocB_sound _ (by decide))
+    ⟨rfl, fun d hd => by
+      rw [show NSNode.denote.denoteList baseScope exSns =
+        [.comment ['c'],
+         .elem ['u'] ['a'] [(['p'], ['u'])] [(([], ['k']), ['v', '&'])] [.elem [] ['b'] [] [] [], .text ['t']]]
+        from rfl] at hd
+      simp only [List.mem_cons, List.not_mem_nil, or_false] at hd
+      rcases hd with rfl | rfl <;> rfl⟩
+    exDoc (by decide) (by decide) (fun x hx => by cases hx; rfl)
+
+/-- `parse_fragment` does not skip a byte-order mark: `U+FEFF<a/>` lexes, in fragment mode, as a text
+    token holding U+FEFF followed by the element (so the fragment gets a text node U+FEFF); in
+    document mode the same text is the document `<a/>`. -/
+example : (lexMode .fragment ('\uFEFF' :: ['<', 'a', '/', '>'])).1.map Token.erase =
+    [.text ⟨['\uFEFF'], 0⟩, .elementStart ⟨[], 0⟩ ⟨['a'], 0⟩ ⟨[], 0⟩, .elementEnd .empty ⟨[], 0⟩] :=
+  (C02_lexical_layout .fragment
+    [{ token := .text ⟨['\uFEFF'], 0⟩ }, { token := .elementStart ⟨[], 0⟩ ⟨['a'], 0⟩ ⟨[], 0⟩ },
+     { token := .elementEnd .empty ⟨[], 0⟩ }] (by decide)).1
 
 end XotModel.Props
